@@ -1314,3 +1314,145 @@ def c17_worker(item):
 def cli_c17(v, tier, seed):
     b = rq()
     cli.pool_run(v, c17_worker, [(seed * 1_000_003 + i, b) for i in range(n(tier, 5000, 60000))])
+
+
+# ----------------------------------------------------------------------------
+# C18 output failures (fault enumeration with the LD_PRELOAD shim)
+
+
+def read_shim_log(path):
+    ops = []
+    if not os.path.exists(path):
+        return ops
+    with open(path, "rb") as f:
+        for l in f.read().split(b"\n"):
+            parts = l.split(b" ")
+            if len(parts) >= 5:
+                ops.append({"k": int(parts[0]), "tid": parts[1].decode(), "op": parts[2].decode(), "path": b" ".join(parts[3:-1]).decode("utf-8", "surrogateescape"), "result": parts[-1].decode()})
+    return ops
+
+
+def output_class(path):
+    if path.startswith("/.pc/applied-patches"):
+        return "applied-patches"
+    if path.startswith("/.pc"):
+        return "backup"
+    if path.endswith(".rej"):
+        return "reject"
+    return "tree"
+
+
+def c18_worker(item):
+    from common import SHIM_SO
+    seed, binary = item
+    r = random.Random(seed * 613651349 + 18)
+    res = Res()
+    cfg = wsgen.GenConfig(p_fail=0.5, max_patches=r.choice([1, 2, 4]), max_files=4, allow_special_names=False)
+    ws = wsgen.generate(seed, cfg)
+    threads = r.choice([1, 1, 4])
+    first = 0
+    args = base_args(threads=threads, backup="always", verbosity="-q") + ["push", "-a"]
+    names = [p.name for p in ws.patches]
+    with Scratch("c18") as scr:
+        orig = os.path.join(scr, "ws.orig")
+        wsgen.materialize(ws, orig, applied=first)
+        base = os.path.join(scr, "base")
+        runner.copy_ws(orig, base)
+        log0 = os.path.join(scr, "shim0.log")
+        env = {"LD_PRELOAD": SHIM_SO, "FAULTSHIM_LOG": log0, "FAULTSHIM_ROOT": base}
+        r0 = runner.run_rq(binary, base, args, env_extra=env)
+        ops0 = read_shim_log(log0)
+        if r0.timed_out or r0.crashed() or not ops0:
+            res.count("baseline-unusable")
+            return res
+        nops = len(ops0)
+        res.count("baseline-runs")
+        res.count("baseline-output-operations", nops)
+        kmax = nops + (2 if threads > 1 else 0)
+        for k in range(1, kmax + 1):
+            work = os.path.join(scr, "w%d" % k)
+            runner.copy_ws(orig, work)
+            logk = os.path.join(scr, "shim%d.log" % k)
+            kind0 = ops0[min(k, nops) - 1]["op"]
+            err = {"open": 28, "write": 28, "mkdir": 28}.get(kind0, r.choice([13, 5]))
+            env = {"LD_PRELOAD": SHIM_SO, "FAULTSHIM_LOG": logk, "FAULTSHIM_ROOT": work, "FAULTSHIM_FAIL_AT": str(k), "FAULTSHIM_ERRNO": str(err)}
+            rr = runner.run_rq(binary, work, args, env_extra=env)
+            res["evals"] += 1
+            ops = read_shim_log(logk)
+            hit = [o for o in ops if o["result"].startswith("FAIL")]
+            if not hit:
+                res.count("fault-index-beyond-the-run's-operations")
+                shutil_rm(work)
+                continue
+            f = hit[0]
+            cls = output_class(f["path"])
+            sig0 = {"driver": "seq" if threads == 1 else "par", "op": f["op"], "output": cls}
+            argv = [binary] + args
+            extra = {"fault": f, "fail_at": k, "errno": err, "operations_of_fault_free_run": nops}
+            res.count("faults-injected")
+            res.count("fault:%s:%s" % (f["op"], cls))
+            res["nontrivial"].append(case_key(f["op"], cls, threads, cli.ws_shape_key(ws), k))
+            if rr.timed_out:
+                res["inconclusive"] = "watchdog"
+            elif rr.crashed():
+                res.viol(dict(sig0, **{"class": "crash", "rc": str(rr.rc), "where": cli.crash_site(rr.err)}), "crash after an injected %s failure on %s: %s" % (f["op"], f["path"], rr.err.decode("utf-8", "replace")[-300:]), orig, argv, extra)
+            elif rr.rc == 0:
+                res.viol(dict(sig0, **{"class": "failure-reported-as-success"}), "exit 0 although %s of %s failed with errno %d" % (f["op"], f["path"], err), orig, argv, extra)
+            else:
+                msg = rr.err.decode("utf-8", "replace")
+                base_name = os.path.basename(f["path"])
+                named = (base_name and base_name in msg) or (cls == "applied-patches" and "applied" in msg.lower())
+                if f["path"] == "/.pc" and "applied" in msg.lower():
+                    named = True  # creating .pc on behalf of applied-patches: the message names what was being saved
+                if f["op"] in ("mkdir", "rmdir") and not named:
+                    # a directory operation: naming the directory or a file in it both count
+                    named = any(part and part in msg for part in f["path"].strip("/").split("/"))
+                obs_applied = runner.read_applied(work) or []
+                new_names = obs_applied[first:]
+                if not named:
+                    res.viol(dict(sig0, **{"class": "message-does-not-name-the-file"}), "%s of %s failed (errno %d); stderr: %s" % (f["op"], f["path"], err, msg[-300:]), orig, argv, extra)
+                elif new_names:
+                    # recorded patches must be a prefix and all their files must be fully written
+                    j = len(new_names)
+                    ok = new_names == names[first:first + j]
+                    bad = None
+                    if ok and first + j < len(ws.trees) + 0:
+                        snap = cli.observe(work)
+                        want = ws.trees[first + j] if first + j < len(ws.trees) else None
+                        if want is not None:
+                            touched = set()
+                            for p in ws.patches[first:first + j]:
+                                for op in p.ops:
+                                    touched.update([op.path, op.new_path])
+                            for path in touched:
+                                w = want.get(path)
+                                g = snap["tree"].get(path)
+                                # a later patch may have changed the file further; only absence/presence and, when no later patch touches it, content are decidable
+                                later = any(path in (o.path, o.new_path) for p in ws.patches[first + j:] for o in p.ops)
+                                if later:
+                                    continue
+                                if (w is None) != (g is None) or (w is not None and g[1] != w[0]):
+                                    bad = path
+                                    break
+                    if not ok or bad:
+                        res.viol(dict(sig0, **{"class": "recorded-although-not-fully-written"}), "applied-patches gained %r; file %s is not in the state after those patches" % (new_names, bad), orig, argv, extra)
+                    else:
+                        res.count("held-runs")
+                else:
+                    res.count("held-runs")
+            shutil_rm(work)
+        if seed % 10 == 3:
+            res["sample"] = {"workspace": ws.describe(), "args": args, "operations_of_fault_free_run": [(o["op"], o["path"]) for o in ops0][:40]}
+    return res
+
+
+def shutil_rm(p):
+    import shutil
+    shutil.rmtree(p, ignore_errors=True)
+
+
+def cli_c18(v, tier, seed):
+    from common import build_shim
+    build_shim()
+    b = rq()
+    cli.pool_run(v, c18_worker, [(seed * 1_000_003 + i, b) for i in range(n(tier, 120, 1500))])
